@@ -282,6 +282,7 @@ fn exec_cfg<C: Ws>(t: &RangeTrace, ctx: &mut Ctx, skip_inspect: bool) -> Result<
     let mut eps = 0.0f64;
     let mut log = RunLog::default();
     let mut r_valid = true;
+    let mut last_written: Vec<u64> = prefix.clone();
 
     // per-step monitors
     macro_rules! monitors {
@@ -292,6 +293,16 @@ fn exec_cfg<C: Ws>(t: &RangeTrace, ctx: &mut Ctx, skip_inspect: bool) -> Result<
                 ctx.stats.state(h);
                 if ni >= 1 { ctx.stats.hit("probe-inverted"); }
                 if ni >= 3 { ctx.stats.hit("probe-inverted-3plus"); }
+            }
+            if ctx.any(&["C02", "C06"]) {
+                // words handed to the sink are final: what was written earlier must be a prefix
+                // of what is written now (a pending carry must be held back, not patched later -
+                // callback sinks cannot take words back)
+                let now = enc.written();
+                if now.len() < last_written.len() || now[..last_written.len()] != last_written[..] {
+                    viol!(ctx, ctx.prop, "range-written-words-changed", "words already handed to the sink changed: before {:x?} now {:x?}", last_written, now);
+                }
+                last_written = now;
             }
             if ctx.on("C18") {
                 if let (Enc::V(c), Some(words)) = (&enc, enc.export()) {
@@ -548,6 +559,9 @@ fn exec_cfg<C: Ws>(t: &RangeTrace, ctx: &mut Ctx, skip_inspect: bool) -> Result<
     let mut enc_keep = if guard_source { enc.clone_() } else { None };
     let Some(sealed) = enc.finish() else { return Ok(log) };
     log.sealed = Some(sealed.clone());
+    if ctx.any(&["C02", "C06"]) && (sealed.len() < last_written.len() || sealed[..last_written.len()] != last_written[..]) {
+        viol!(ctx, ctx.prop, "range-written-words-changed", "sealing changed words already handed to the sink: before {:x?} sealed {:x?}", last_written, sealed);
+    }
     let msg_words = sealed[prefix.len().min(sealed.len())..].to_vec();
     if sealed.len() < prefix.len() || sealed[..prefix.len()] != prefix[..] {
         if ctx.any(&["C11", "C08", "C02"]) {
@@ -720,39 +734,56 @@ fn exec_cfg<C: Ws>(t: &RangeTrace, ctx: &mut Ctx, skip_inspect: bool) -> Result<
     }
     ctx.stats.hit("messages-roundtripped");
 
-    // ---------------- seeker (C07)
-    if ctx.on("C07") && !snaps.is_empty() || (ctx.on("C07") && end_snap.is_some()) {
-        let mut d = RangeDecoder::<C::W, C::S, _>::with_backend(Cursor::new_at_pos(stored_w.clone(), start).expect("in range")).unwrap_infallible();
-        let mut all: Vec<&Snap> = snaps.iter().collect();
-        if let Some(e) = end_snap.as_ref() { all.push(e); }
-        let n_all = all.len();
-        for (si, n) in t.seeks.iter() {
-            let s = all[*si % n_all];
-            let state = constriction::stream::queue::RangeCoderState::<C::W, C::S>::new(s_from(s.lower), s_from(s.range)).expect("valid state");
-            ctx.stats.hit("op-seek");
-            match s.inverted { 0 => {}, 1 => ctx.stats.hit("probe-snapshot-inverted-1"), 2 => ctx.stats.hit("probe-snapshot-inverted-2"), _ => ctx.stats.hit("probe-snapshot-inverted-3plus") }
-            if d.seek((s.pos, state)).is_err() {
-                viol!(ctx, "C07", "range-seek-refused", "seek to snapshot after {} symbols (pos {}) refused; data has {} words", s.at, s.pos, stored_w.len());
-            }
-            if s.at == message.len() && suffix_len == 0 {
-                ctx.stats.hit("probe-seek-to-end");
-                if !d.maybe_exhausted() {
-                    viol!(ctx, "C07", "range-seek-to-end-not-exhausted", "after seeking to the final position maybe_exhausted()=false");
+    // ---------------- seeker (C07): owned, borrowed and simulator-store backends
+    if ctx.on("C07") && (!snaps.is_empty() || end_snap.is_some()) {
+        macro_rules! seeker {
+            ($dec:expr, $what:expr) => {{
+                let mut d = $dec;
+                ctx.stats.hit($what);
+                let mut all: Vec<&Snap> = snaps.iter().collect();
+                if let Some(e) = end_snap.as_ref() { all.push(e); }
+                let n_all = all.len();
+                for (si, n) in t.seeks.iter() {
+                    let s = all[*si % n_all];
+                    let state = constriction::stream::queue::RangeCoderState::<C::W, C::S>::new(s_from(s.lower), s_from(s.range)).expect("valid state");
+                    ctx.stats.hit("op-seek");
+                    match s.inverted { 0 => {}, 1 => ctx.stats.hit("probe-snapshot-inverted-1"), 2 => ctx.stats.hit("probe-snapshot-inverted-2"), _ => ctx.stats.hit("probe-snapshot-inverted-3plus") }
+                    if d.seek((s.pos, state)).is_err() {
+                        viol!(ctx, "C07", "range-seek-refused", "seek to snapshot after {} symbols (pos {}) refused; data has {} words", s.at, s.pos, stored_w.len());
+                    }
+                    if s.at == message.len() && suffix_len == 0 {
+                        ctx.stats.hit("probe-seek-to-end");
+                        if !d.maybe_exhausted() {
+                            viol!(ctx, "C07", "range-seek-to-end-not-exhausted", "after seeking to the final position maybe_exhausted()=false");
+                        }
+                    }
+                    for (k, (sym, b)) in decs.iter().enumerate().skip(s.at).take(*n) {
+                        let got = <C::W as WordOps>::dec(&mut d, b);
+                        ctx.stats.hit("seek-symbols-checked");
+                        if got != DecRes::Ok(*sym) {
+                            viol!(ctx, "C07", "range-seek-wrong-symbol", "after seek to snapshot at symbol {} (pos {}, inverted {}): symbol {}: got {:?} expected {}", s.at, s.pos, s.inverted, k, got, sym);
+                        }
+                    }
                 }
-            }
-            for (k, (sym, b)) in decs.iter().enumerate().skip(s.at).take(*n) {
-                let got = <C::W as WordOps>::dec(&mut d, b);
-                ctx.stats.hit("seek-symbols-checked");
-                if got != DecRes::Ok(*sym) {
-                    viol!(ctx, "C07", "range-seek-wrong-symbol", "after seek to snapshot at symbol {} (pos {}, inverted {}): symbol {}: got {:?} expected {}", s.at, s.pos, s.inverted, k, got, sym);
+                // positions beyond the data are refused
+                let state = constriction::stream::queue::RangeCoderState::<C::W, C::S>::default();
+                ctx.stats.hit("fault-seek-beyond");
+                if d.seek((stored_w.len() + 1, state)).is_ok() {
+                    viol!(ctx, "C07", "range-seek-beyond-data-accepted", "pos {} with {} words", stored_w.len() + 1, stored_w.len());
                 }
-            }
+            }};
         }
-        // positions beyond the data are refused
-        let state = constriction::stream::queue::RangeCoderState::<C::W, C::S>::default();
-        ctx.stats.hit("fault-seek-beyond");
-        if d.seek((stored_w.len() + 1, state)).is_ok() {
-            viol!(ctx, "C07", "range-seek-beyond-data-accepted", "pos {} with {} words", stored_w.len() + 1, stored_w.len());
+        match t.seeks.len() % 3 {
+            0 => seeker!(RangeDecoder::<C::W, C::S, _>::with_backend(Cursor::new_at_pos(stored_w.clone(), start).expect("in range")).unwrap_infallible(), "seeker-owned-cursor"),
+            1 => seeker!(RangeDecoder::<C::W, C::S, _>::with_backend(Cursor::new_at_pos(&stored_w[..], start).expect("in range")).unwrap_infallible(), "seeker-borrowed-cursor"),
+            _ => {
+                let mut qs = QStore(Store::new(stored_w.clone()));
+                qs.0.qpos = start;
+                match RangeDecoder::<C::W, C::S, _>::with_backend(qs) {
+                    Ok(d) => seeker!(d, "seeker-store"),
+                    Err(_) => {}
+                }
+            }
         }
     }
     log.completed = true;
